@@ -992,7 +992,7 @@ func (index *ValidatorIndex) Empty() bool {
 		i += 1
 		return false
 	})
-	return i > 0
+	return i == 0
 }
 
 func (index *ValidatorIndex) List() []common.Address {
